@@ -22,6 +22,7 @@ func checkC01(p *Program, r *Report) {
 	checkCapacity(p, r, "C01.capacity")
 	checkLeafDecoder(p, r, "C01.leaf-decoder")
 	checkBigZone(p, r, "C01.bigzone")
+	checkEncodeIndependent(p, r, "C01.encode-independent")
 }
 
 // ---------------------------------------------------------------------------
